@@ -16,7 +16,7 @@ DRIVER = 'Serialize'
 REQUIRED_THEOREMS = [
     'plain', 'idempotent', 'rejects', 'accepts', 'keeps_structure', 'roundtrip_partial',
     'plain_unchanged', 'plain_roundtrip_exact', 'hook_coherent', 'regex_source_is_modelled',
-    'dispatch_unique', 'tag_match_iff', 'bare_unit_nan_prefix_fails', 'nan_reciprocal_unit_fails', 'token_pint_ok', 'badkeys_sound',
+    'dispatch_unique', 'tag_match_iff', 'bare_unit_nan_prefix_roundtrips', 'nan_reciprocal_unit_roundtrips', 'token_pint_ok', 'badkeys_sound',
 ]
 ANCHORS = [
     ('vivarium/core/serialize.py', [
@@ -46,11 +46,9 @@ TRUSTED = ['pint `str(quantity)` / `units(...)` (hypotheses of the round-trip th
 ASSUMPTIONS = [
     'nesting depth below orjson\'s recursion limit (254)',
     'quantity magnitudes are scalars or 1-d arrays (a 2-d array magnitude does NOT round-trip: '
-    'candidate finding, see notes/C14.md)',
-    'bare Unit values whose name starts with "nan" (nanometer, nanogram…) are avoided by the '
-    'generator except in one corpus case classified as candidate finding (deserialize raises)',
-    'a nan magnitude with a unit printed `1 / x` is avoided by the generator except in one corpus '
-    'case recorded as candidate finding (deserialize raises)',
+    'out-of-quantifier note C, see notes/C14.md)',
+    'vivarium.library.units.Quantity(...) instances (class differs from type(1 * units.fg)) are not '
+    'generated: serialize_value rejects them (out-of-quantifier note D in notes/C14.md)',
 ]
 CASE_TIMEOUT = 30.0
 
@@ -71,7 +69,7 @@ TAGS = [('!units[5 gram]', True), ('!units[]', True), ('!units[nan]', True), ('!
         ('!units[-3 count]', True), ('!units[inf gram]', True), ('!units[1e+22 gram]', True),
         ('!units[hello]', False), ('!units[a]b]', False), ('!units[]]', False), ('!units[[]', False),
         ('!units[!units[5 gram]]', False), ('!units[ ]', False), ('!units[5 gram\r]', False),
-        ('!units[nanometer]', False), ('!units[\t]', False), ('!units[😀]', False)]
+        ('!units[nanometer]', True), ('!units[nan / second]', True), ('!units[nan nanometer]', True), ('!units[\t]', False), ('!units[😀]', False)]
 UNITS = ['femtogram', 'gram', 'millimolar', 'millimole', 'count', 'dimensionless', 'kelvin', 'second',
          'liter', 'femtoliter', 'micrometer', 'meter', 'hour', 'molar', 'millimole / gram / hour',
          'gram / liter ** 2', 'femtogram ** 0.5', 'count / femtoliter', 'meter * second',
@@ -688,7 +686,7 @@ def run_impl(case):
             back = None
             obs['deser'] = {'err': 'Exception'}
             obs['deser_exc'] = type(e).__name__
-        expect_rt = not has_matching_tag(spec) and not _has_nan_unit(spec)
+        expect_rt = not has_matching_tag(spec)
         if 'ok' in obs['deser']:
             rt = _restored(spec, back, env, reprs, order, [0], sup_tags=not has_matching_tag(spec))
             if rt:
@@ -699,10 +697,6 @@ def run_impl(case):
         elif expect_rt:
             fails.append(f'roundtrip: deserialize_value raised {obs.get("deser_exc")} on the output '
                          f'{_short(jenc(out))}')
-        elif _has_nan_unit(spec) and not has_matching_tag(spec):
-            # candidate finding (notes/C14.md): a bare Unit whose name starts with "nan" is taken
-            # for a nan magnitude by UnitsSerializer.deserialize.  Recorded, not a verdict.
-            obs['candidate'] = f'nan-prefixed-unit: deserialize_value raised {obs.get("deser_exc")}'
         # a matching tag string must never come back as the same string
         if 'ok' in obs['deser'] and type(out) is str and us.regex_for_serialized.fullmatch(out) \
                 and type(back) is str:
@@ -827,20 +821,6 @@ def _not_plain(x, path='$'):
                 return r
         return None
     return f'{path}: {t.__name__}'
-
-
-def _has_nan_unit(spec):
-    """inputs of the candidate findings (notes/C14.md): a bare unit named nan…, or a nan magnitude
-    with a `1 / x` unit (printed `nan / x`)"""
-    for s in walk(spec):
-        k = _kind(s)
-        if k == 'u' and s['u'].startswith('nan'):
-            return True
-        if k == 'q' and s['q'][1].startswith('1 /') and _mag_token(_np(), s['q'][0]) == 'nan':
-            return True
-        if k == 'qa' and s['qa'][2].startswith('1 /') and 'nan' in s['qa'][1]:
-            return True
-    return False
 
 
 def _is_plain_spec(spec):
@@ -1083,7 +1063,7 @@ def deser_comparable(spec):
         k = _kind(s)
         if k in ('s', 'ns') and _TAG_RE.fullmatch(s[k]) and s[k] not in good:
             return False
-    return not _has_nan_unit(spec)      # candidate findings A / B: real pint raises there
+    return True
 
 
 def model_requests(case):
@@ -1196,24 +1176,10 @@ def compare(case, impl, model):
     return '; '.join(diffs) if diffs else None
 
 
-KNOWN_ID = 'F22'   # id to use in known_findings.json if the nan-prefix defect is recorded there
-
-
-def _recorded():
-    from harness import lib
-    return any(e.get('id') == KNOWN_ID and e.get('status') == 'known' for e in lib.load_known(PROP))
-
-
 def oracle(case, impl):
     if not isinstance(impl, dict) or 'fails' not in impl:
         return [f'probe-crashed: {_short(impl)}']
-    fails = list(impl['fails'])
-    cand = impl.get('obs', {}).get('candidate')
-    if cand and _recorded():
-        # once the candidate finding is an entry of known_findings.json the two corpus witnesses
-        # are reported as KNOWN-FINDING lines; until then they are only counted in the evidence
-        fails.append('known-nan-prefix: ' + cand)
-    return fails
+    return impl['fails']
 
 
 def nontrivial(case, impl):
@@ -1224,7 +1190,7 @@ def nontrivial(case, impl):
 
 
 def classify(case, failure):
-    return KNOWN_ID if failure.startswith('known-nan-prefix') else None
+    return None
 
 
 def stats(results):
@@ -1242,11 +1208,13 @@ def stats(results):
         outcomes['ser:' + ('ok' if 'ok' in io.get('ser', {}) else io.get('ser', {}).get('err', '?'))] += 1
         if 'deser' in io:
             outcomes['deser:' + ('ok' if 'ok' in io['deser'] else 'raised')] += 1
-        if io.get('candidate'):
-            cand += 1
     return {'streams': dict(streams), 'node_kinds': dict(kinds), 'depths': dict(depth),
             'outcomes': dict(outcomes), 'emit_cases': sum(1 for r in results if r['case'].get('kind') == 'emit'),
-            'candidate_finding_cases': cand}
+            'nan_named_units': sum(1 for r in results for x in walk(r['case']['v'])
+                                   if (_kind(x) == 'u' and x['u'].startswith('nan'))),
+            'nan_with_reciprocal_unit': sum(1 for r in results for x in walk(r['case']['v'])
+                                            if _kind(x) == 'q' and x['q'][1].startswith('1 /')
+                                            and _mag_token(_np(), x['q'][0]) == 'nan')}
 
 
 def _depth(spec):
@@ -1348,13 +1316,13 @@ def g_mag(rng):
     return {'np': ['float32', rng.choice(['0.1', '1.5', '2.25', 'nan', '1000.5'])]}
 
 
-def g_unit(rng, bare=False):
+def g_unit(rng):
     r = rng.random()
-    if r < 0.8:
+    if r < 0.75:
         return rng.choice(UNITS)
-    if r < 0.9:
+    if r < 0.87:
         return rng.choice(RECIP_UNITS)
-    return rng.choice(UNITS) if bare else rng.choice(NAN_UNITS)
+    return rng.choice(NAN_UNITS)     # names starting with "nan" (regression F27), bare or with a magnitude
 
 
 def g_quantity(rng):
@@ -1365,24 +1333,17 @@ def g_quantity(rng):
                 rng.choice(['1.0', '2.5', '0.1', 'nan', 'inf', '-0.0', '1e+22', '5e-324'] if dt == 'float64'
                            else ['1.0', '2.5', '0.1', 'nan'])
                 for _ in range(n)]
-        unit = g_unit(rng)
-        if unit.startswith('1 /') and 'nan' in lits:
-            unit = 'second'
-        return {'qa': [dt, lits, unit]}
+        return {'qa': [dt, lits, g_unit(rng)]}
     return _fit({'q': [g_mag(rng), g_unit(rng)]}, rng)
 
 
 def _fit(q, rng):
     """keep a scalar quantity inside the property's quantifier: with a dividing / float-power
     unit pint re-reads an int magnitude as a float, exact only below 2^53 (we stay below 10^15 so
-    that the token is `<int>.0`); nan with a `1 / x` unit prints `nan / x` (candidate finding:
-    deserialize raises) and is generated only in the corpus."""
+    that the token is `<int>.0`)."""
     mag, unit = q['q']
     if ('/' in unit or '.' in unit) and _kind(mag) == 'i' and abs(int(mag['i'])) >= 10 ** 15:
         mag = {'i': str(rng.randrange(-10 ** 15, 10 ** 15))}
-    tok = mag.get('f') or (mag.get('np') or [None, None])[1]
-    if unit.startswith('1 /') and tok == 'nan':
-        unit = 'second'
     return {'q': [mag, unit]}
 
 
@@ -1437,7 +1398,7 @@ def g_leaf(rng, hashable=False):
             q['q'][0] = {'np': ['int64', q['q'][0]['np'][1]]}   # pint hashes via base units: 13 h overflows uint8
         return q
     if r < 0.94:
-        return {'u': g_unit(rng, bare=True)}
+        return {'u': g_unit(rng)}
     if r < 0.97:
         return {'fn': rng.choice(FUNCS)}
     return {'p': [rng.choice(['A', 'B']), rng.choice(PROC_PARAMS)]}
@@ -1649,6 +1610,7 @@ def exhaustive_family():
               {'s': '!units[5 gram]'}, {'s': '!units[5 gram]\n'}, {'ns': 'b'}, {'np': ['float32', '0.1']},
               {'np': ['uint64', '18446744073709551615']}, {'q': [{'f': 'nan'}, 'femtogram']},
               {'q': [{'i': '3'}, 'count / femtoliter']}, {'u': 'millimole / gram / hour'},
+              {'u': 'nanometer'}, {'q': [{'f': 'nan'}, '1 / second']},
               {'qa': ['float64', ['1.0', 'nan'], 'gram']}, {'fn': 'plain'}, {'p': ['B', {'k': 3}]},
               {'x': 'frozenset'}, {'x': 'bytes'}, {'t': []}, {'l': [{'s': 'x'}]},
               {'d': [[{'o': 'int:1'}, None]]}, {'d': [[{'s': 'k'}, {'u': 'gram'}]]}]
@@ -1769,11 +1731,19 @@ def corpus():
                  '!ToySerializer[test]hi there!', '!hi there!', 'hi there!!', '!units[', '!units[]']:
         cases.append({'kind': 'tree', 'stream': 'taglike', 'v': _t({'s': text, 'l': [text]})})
         cases.append({'kind': 'tree', 'stream': 'taglike', 'v': _t(text)})
-    # candidate finding: a bare Unit whose name starts with "nan" (recorded, see notes)
-    cases.append({'kind': 'tree', 'stream': 'valid', 'name': 'candidate-nan-prefixed-unit',
+    # regression F27 (pre-fix witnesses; repaired by 0802664): must round-trip
+    cases.append({'kind': 'tree', 'stream': 'valid', 'name': 'F27-nan-prefixed-unit',
                   'v': _t({'u': _sp({'u': 'nanometer'})})})
-    cases.append({'kind': 'tree', 'stream': 'valid', 'name': 'candidate-nan-reciprocal-unit',
+    cases.append({'kind': 'tree', 'stream': 'valid', 'name': 'F27-nan-reciprocal-unit',
                   'v': _t({'rate': _sp({'q': [_t(math.nan), '1 / second']})})})
+    cases.append({'kind': 'tree', 'stream': 'valid', 'name': 'F27-more',
+                  'v': _t([_sp({'u': u}) for u in NAN_UNITS] +
+                          [_sp({'q': [_t(math.nan), u]}) for u in NAN_UNITS + RECIP_UNITS] +
+                          [_sp({'q': [{'np': ['float32', 'nan']}, '1 / gram / second']}),
+                           _sp({'qa': ['float64', ['nan', '2.5'], '1 / second']}),
+                           _sp({'set': [{'u': 'nanomolar'}]})])})
+    cases.append({'kind': 'emit', 'stream': 'valid', 'name': 'F27-emitter', 'time': 3.0, 'embed': ['x'],
+                  'v': _t({'len': _sp({'u': 'nanometer'}), 'rate': _sp({'q': [_t(math.nan), '1 / second']})})})
     # through the emitter
     cases.append({'kind': 'emit', 'stream': 'valid', 'time': 1.0, 'embed': ['agents', '1'], 'v': _t({
         'mass': q(1.5, 'femtogram'), 'counts': nd('int64', [2], ['3', '4']), 'tags': ('a', 'b'),
@@ -1795,8 +1765,8 @@ LEVEL_TEXT = ('Lean 4 theorems over an executable model of serialize.py, for all
 LEVEL_NOTE = ('Partial for number formatting: pint\'s `units(str(q)) == q` is an explicit hypothesis of '
               'roundtrip_partial (shown satisfiable by a token-level parser) and orjson\'s number encoding is '
               'represented by tokens; both are sampled by the correspondence and by the oracle on the real code '
-              '(nan, ±inf, ±0.0, 5e-324, 1e±300, ints up to 2^70, numpy scalars, compound units). Bare units whose '
-              'name starts with "nan" are excluded by hypothesis and proved NOT to round-trip in the model '
-              '(bare_unit_nan_prefix_fails; candidate finding). Trusted: Lean kernel, the hand-written model as far '
+              '(nan, ±inf, ±0.0, 5e-324, 1e±300, ints up to 2^70, numpy scalars, compound units). Units whose name '
+              'starts with "nan" and nan magnitudes with reciprocal units (defect F27, repaired) are covered: '
+              'bare_unit_nan_prefix_roundtrips, nan_reciprocal_unit_roundtrips. Trusted: Lean kernel, the hand-written model as far '
               'as the differential runs sample it, extract_tables.py.')
 TECHNIQUE = 'Lean 4 proof by structural induction over value trees + model/code correspondence (differential)'
